@@ -95,6 +95,7 @@ func verifGoID() uint64 { return getg().goid }
     locks = {
         "internal/engine/engine.go": None,
         "internal/engine/cache.go": None,
+        "internal/xfn/function_runner.go": None,
     }
     for rel in locks:
         p = os.path.join(REPO, rel)
